@@ -69,6 +69,12 @@ def cases(tier, seed):
             if pair == "worker|shutdown" and not (set(layers) & {"retry", "poll", "throttle", "timeout"}):
                 continue
             out.append({"name": "shutdown.race/%s/%s" % (">".join(layers), pair), "kind": "race", "layers": layers, "pair": pair, "cap": cap})
+    for layers in (["cos"], ["cos", "map"], ["map", "cos"]):
+        for pair in ("shutdown|complete", "shutdown|submit"):
+            out.append({"name": "shutdown.race-instr/%s/%s" % (">".join(layers), pair), "kind": "race", "layers": layers, "pair": pair,
+                        "cap": None, "gran": "instr"})
+    for what in ("resubmit", "submit_plain"):
+        out.append({"name": "shutdown.after-timeout-callback/%s" % what, "kind": "tcallback", "form": "executor", "what": what})
     for t in ("retry", "poll", "throttle", "timeout"):
         out.append({"name": "shutdown.from-callback/%s" % t, "kind": "fromcb", "layer": t})
     out.append({"name": "shutdown.real/pool", "kind": "real"})
@@ -359,7 +365,7 @@ def run_race(case, res):
     rng = random.Random("c11/%s/%s" % (case["seed"], case["name"]))
     for state in ("pending", "idle"):
         for wait in (True, False):
-            Sweep(RScenario(case, wait, state), res, "vt", case["name"]).run(case["cap"], rng, per_site=1)
+            Sweep(RScenario(case, wait, state), res, "vt", case["name"], gran=case.get("gran")).run(case["cap"], rng, per_site=1)
             if harness.need_recycle():
                 return
 
@@ -560,6 +566,11 @@ def run_asyncio(case, res):
 
 def run_case(case, res):
     k = case["kind"]
+    if k == "tcallback":
+        # (C09's scenario: a timed-out future's callback uses the executor again; here what matters is that the executor
+        # still shuts down afterwards - tear-down shuts it down with wait=True and a stuck worker is reported)
+        from . import c09
+        return c09.run_tcallback(case, res)
     if k == "state":
         run_state(case, res)
     elif k == "race":
